@@ -18,6 +18,7 @@ import (
 	"sync"
 
 	"github.com/inbucket/inbucket/v3/pkg/config"
+	"github.com/inbucket/inbucket/v3/pkg/extension/event"
 	"verifharness/smtpd"
 	"verifharness/vh"
 )
@@ -144,6 +145,30 @@ func labels(rs ruleSet) string {
 	return strings.Join(rs.labels, ",")
 }
 
+// secondRules draws the rule table of a second, Go-implemented listener registered AFTER the Lua
+// host on the same broker: it is consulted only when the Lua handler did not answer.
+func secondRules(g *vh.Gen, addrs []string) string {
+	var ls []string
+	for _, a := range addrs {
+		if !g.Chance(0.4) {
+			continue
+		}
+		switch g.Intn(4) {
+		case 0:
+			ls = append(ls, vh.HS(a)+"=A")
+		case 1:
+			ls = append(ls, vh.HS(a)+"=F")
+		default:
+			code := g.Pick2(553, 554, 521)
+			ls = append(ls, fmt.Sprintf("%s=D%d:%s", vh.HS(a), code, vh.HS("second listener says no")))
+		}
+	}
+	if len(ls) == 0 {
+		return "-"
+	}
+	return strings.Join(ls, ",")
+}
+
 func genScript(g *vh.Gen, streams [][]byte) (script, ml, rl, msl string) {
 	seen := map[string]bool{}
 	var addrs []string
@@ -188,8 +213,11 @@ func genScript(g *vh.Gen, streams [][]byte) (script, ml, rl, msl string) {
 	if g.Chance(0.2) {
 		b.WriteString("function inbucket.after.message_deleted(msg)\n error(\"x\")\nend\n")
 	}
+	lastAddrs = addrs
 	return b.String(), labels(mail), labels(rcpt), labels(msg)
 }
+
+var lastAddrs []string
 
 func gen(g *vh.Gen) {
 	o := smtpd.Opts{Garbage: 0.05, MaxBody: 40}
@@ -197,7 +225,7 @@ func gen(g *vh.Gen) {
 		c, pool := smtpd.GenCfg(g, o)
 		stream := smtpd.GenDialogue(g, c, pool[:3], o)
 		script, ml, rl, msl := genScript(g, [][]byte{stream})
-		g.Emit("lua", append(c.Fields(), vh.H(stream), vh.HS(script), ml, rl, msl)...)
+		g.Emit("lua", append(c.Fields(), vh.H(stream), vh.HS(script), ml, rl, msl, secondRules(g, lastAddrs), secondRules(g, lastAddrs))...)
 	}
 	for i := 0; i < g.N(20, 400); i++ { // concurrent sessions against one host
 		c, pool := smtpd.GenCfg(g, o)
@@ -210,7 +238,7 @@ func gen(g *vh.Gen) {
 			hs[j] = vh.H(streams[j])
 		}
 		script, ml, rl, msl := genScript(g, streams)
-		g.Emit("luapar", append(c.Fields(), strings.Join(hs, "+"), vh.HS(script), ml, rl, msl)...)
+		g.Emit("luapar", append(c.Fields(), strings.Join(hs, "+"), vh.HS(script), ml, rl, msl, secondRules(g, lastAddrs), secondRules(g, lastAddrs))...)
 	}
 }
 
@@ -228,6 +256,40 @@ func exec(kind string, in []string) []string {
 		return []string{"SETUPERR", vh.HS(err.Error())}
 	}
 	defer env.Close()
+	if len(in) > smtpd.NFields+6 {
+		second := func(rules string) map[string]*event.SMTPResponse {
+			m := map[string]*event.SMTPResponse{}
+			if rules == "-" {
+				return m
+			}
+			for _, e := range strings.Split(rules, ",") {
+				kv := strings.SplitN(e, "=", 2)
+				switch kv[1][0] {
+				case 'A':
+					m[vh.US(kv[0])] = &event.SMTPResponse{Action: event.ActionAllow}
+				case 'F':
+					m[vh.US(kv[0])] = &event.SMTPResponse{Action: event.ActionDefer}
+				case 'D':
+					cm := strings.SplitN(kv[1][1:], ":", 2)
+					m[vh.US(kv[0])] = &event.SMTPResponse{Action: event.ActionDeny, ErrorCode: vh.AtoI(cm[0]), ErrorMsg: vh.US(cm[1])}
+				}
+			}
+			return m
+		}
+		m2, r2 := second(in[smtpd.NFields+5]), second(in[smtpd.NFields+6])
+		env.Host.Events.BeforeMailFromAccepted.AddListener("second", func(s event.SMTPSession) *event.SMTPResponse {
+			if s.From == nil {
+				return nil
+			}
+			return m2[s.From.Address]
+		})
+		env.Host.Events.BeforeRcptToAccepted.AddListener("second", func(s event.SMTPSession) *event.SMTPResponse {
+			if len(s.To) == 0 {
+				return nil
+			}
+			return r2[s.To[len(s.To)-1].Address]
+		})
+	}
 	outs := make([][]byte, len(streams))
 	errs := make([]error, len(streams))
 	var wg sync.WaitGroup
